@@ -80,6 +80,30 @@ ADD3={
 }
 for k,(txt,tech) in ADD3.items():
     apply(k,txt,tech)
+ADD4={
+ "C01":("Rounds 4-5: both RWManager.ReadAt implementations return every byte of a read that lies inside the region (evaluated on a grid of small sizes); pending writes are only appended (never replaced in place); replay applies every committed record whatever the clock says (an expired record still supersedes older ones).", ", SSA evaluation of ReadAt on a finite grid"),
+ "C02":("Rounds 4-5: the segment-selection predicates select every segment that can hold a match (all orderings of a 7-string universe); a dead record found by Get ends the lookup; Hint.key agrees between commit and replay or is never read; the per-segment collectors of sparse scans hand tombstones on to the newest-wins merge.", ", enumeration of orderings"),
+ "C03":("Rounds 4-5: every KV write API logs on every success path (a Delete of a key written in the same transaction is not dropped); the per-segment collectors hand tombstones on to the newest-wins merge; replay does not depend on the clock.", ""),
+ "C04":("Rounds 4-5: identity of a record involves bucket, key and data-structure code; Merge consults the key/value index only for key/value records (K29, repaired).", ""),
+ "C05":("Rounds 4-5: slice starts computed from integer arguments are known >= 0 (K27, repaired); integer arguments are negated only under a lower bound, also when the negation sits in ds/list (K28, repaired); replay and commit agree on which ds errors are ignored; Merge consults the key/value index only for key/value records (K29).", ", lower-bound guard domination"),
+ "C06":("Rounds 4-5: a membership predicate of ds/set answers 'no' only after a lookup missed; two-bucket operations address each looked-up set with the key of the same position; replay and commit agree on ignored ds errors; Merge consults the key/value index only for key/value records (K29).", ", negative-answer guard domination"),
+ "C07":("Rounds 4-5: a node handed out by ds/zset that may be absent (tail of an empty skiplist, failed dictionary lookup) is dereferenced in the API layer only behind a nil test; replay and commit agree on ignored ds errors; Merge consults the key/value index only for key/value records (K29).", ", may-nil result summaries"),
+ "C08":("Rounds 4-5: BPTree.Insert cannot fail (Open would fail where Commit ignored it); Hint.key agrees between commit and replay; Close removes, resizes and creates no file; an existing segment that is made the active file gets its write offset restored.", ""),
+ "C09":("Rounds 4-5: ReadAt grid specification (K26, repaired); BPTree.Insert cannot fail; segments are listed in ascending numeric order; Close leaves the directory as written; installing an existing segment as the active file restores its write offset.", ""),
+ "C10":("Rounds 4-5: on the commit path the counters of an existing data file only move forward (no rewind after a failed commit); both RWManager constructors size the file on every successful open (a 0-byte segment left by a crash is grown again); installing an existing segment restores its write offset.", ""),
+ "C11":("Rounds 4-5: recovery believes only transactions with a marked record and judges records after all segments were scanned (shared with C10).", ""),
+ "C13":("Rounds 4-5: commit-time and open-time appliers agree operation by operation (no batching that reorders adds and removes); pending writes are only appended.", ""),
+ "C14":("Rounds 4-5: every direct acquisition of the database lock outside the transaction functions is released on every path to a return.", ", must-pass-through on lock pairs"),
+ "C15":("Rounds 4-5: DB.committedTxIds only grows; Merge consults the key/value index only for key/value records (K29, repaired); installing an existing segment as the active file restores its write offset.", ""),
+ "C16":("Rounds 4-5: DB.committedTxIds only grows; the lookup Merge uses to recognise superseded records contains no tombstone/expiry test.", ""),
+ "C17":("Rounds 4-5: DB.committedTxIds only grows while the database is open; a lock taken directly by Merge is released on every exit.", ""),
+ "C19":("Rounds 4-5: replay does not depend on the clock (both RAM modes show the same contents after a reopen); sparse collectors keep tombstones for the newest-wins merge.", ""),
+ "C20":("Rounds 4-5: constant elements of slice parameters are addressed under a length guard; slice starts from integer arguments are >= 0 (K27); negations of integer arguments have a lower bound (K28); possibly absent ds nodes are nil-tested before use; a map field of DB that Open drops in sparse mode is stored into only where that mode is excluded; directly taken locks are released on every exit.", ", nil-map store rule"),
+ "C21":("Rounds 4-5: ReadAt grid specification; a fit test in the decoder (also one returned as a bool by a helper, over the header's size fields) accepts a record that ends exactly at the capacity.", ""),
+ "C22":("Rounds 4-5: Close removes, resizes and creates no file (the next Open classifies the directory by the files it finds); replay does not depend on the clock.", ""),
+}
+for k,(txt,tech) in ADD4.items():
+    apply(k,txt,tech)
 for k,(txt,tech) in ADD.items():
     t=T[k]
     marker=txt[:40]
